@@ -75,7 +75,7 @@ CLAIMED = {
              "threads with a preemption point at every read / write of the negotiated version (the datagram must be a well-formed one of the old or the new version).",
         technique="Coq proof + Gen tables by reflection + extracted session-model correspondence + metadata oracle from the command history + controlled two-thread schedules", ref="7-C10"),
     "C11": dict(
-        text="38 Coq theorems for the regenerated real tables: for all 35 rows of the task <-> (combination, lchan, SACCH) table, all tn 0..7 and all current frames of the hyperframe: firmware block starts equal "
+        text="42 Coq theorems for the regenerated real tables: for all 35 rows of the task <-> (combination, lchan, SACCH) table, all tn 0..7 and all current frames of the hyperframe: firmware block starts equal "
              "trxcon bid-0 frames per direction; TCH and SACCH/T agree frame by frame incl. TCH/H sub-channels; burst ids cyclic; every fn lookup stays inside the table; masks cover the channels used and l1sched_configure_ts "
              "(modelled: one state per mask bit) gives every used channel a channel state; every (config, tn) lookup is valid or NULL; both stacks report the same RSL channel number for every row; and for the four consumers of "
              "the lookup in sched_trx.c (handle_rx_burst with subst_frame_loss, pull_burst, rx_probe), for every layout, every channel state and every uint32 fn: no lookup leaves frames[] or l1sched_lchan_desc[]; every handler "
@@ -83,7 +83,8 @@ CLAIMED = {
              "reports the row's ul_bid and calls ul_chan's handler only. Firmware scheduler state (tasks / tasks_tgt / safe_fn with mframe_enable / disable / set / reset / schedule, 13 theorems): a tick makes exactly the "
              "per-tick core's calls for the tasks active after its update; a disable acts at the very next tick and the task stays off; mframe_schedule never writes tasks_tgt, so a request is never lost and becomes active at "
              "the first safe tick; safe_fn is the sentinel or at most 4 frames ahead modulo 2715648 (invariant through the wrap), so a requested task is active within 4 quiet consecutive ticks; from then on it starts its "
-             "blocks exactly in the frames the trxcon layout gives its channel.",
+             "blocks exactly in the frames the trxcon layout gives its channel. trxcon's channel-number resolver l1sched_chan_nr2pchan_config (model = the real function on all 256 channel numbers, regenerated) maps the "
+             "firmware's channel number of every dedicated table row on every timeslot to a combination under which that row's channel has exactly the firmware's block-start frames (BCCH / CCCH numbers resolve to NONE by design).",
         note="Finite: sweeps over one 102/104-frame cycle per row lifted by proved periodicity lemmas. The table pairing is specification content, cross-checked by chan_nr. On-air frame = cur + SCHEDULE_AHEAD. "
              "NONE layout (period 0) excluded (unreachable, kept visible in c11_none_layout_divzero); IDLE exempt from bid and mask checks. Not modelled: ciphering, the hand-over RACH handler override, unsigned long other than 64 bit, a TDMA bucket overflow return, frame-number jumps without reset (the firmware resets on resync). "
              "Liveness is stated for four explicit quiet ticks plus the invariant, not as one induction over histories with blocks started in between. Fixed in /repo: ec960db, 90d5f12 (stale safe_fn after the wrap / after long "
@@ -113,10 +114,13 @@ CLAIMED = {
         note="parse_msg is modelled with checked indexing (Crash constructor) and ValueError (VErr); CPython semantics of struct/bytes.translate/slicing are trusted as modelled.",
         technique="Coq proof (lia, finite sweeps lifted, list induction) + Gen by reflection + extracted-model correspondence", ref="7-C01"),
     "C06": dict(
-        text="Coq theorems for all payloads, histories and capacities about an executable model of sercomm Tx and Rx (transparency, streams with noise, over-long resync and memory safety, "
-             "non-preemptive priority/FIFO refinement, end-to-end); tied by Gen constants dumped through the real sercomm.c and differential correspondence with the ASan/UBSan host build.",
+        text="24 Coq theorems for all payloads, histories and capacities about an executable model of sercomm Tx and Rx (transparency, streams with noise, over-long resync and memory safety, "
+             "non-preemptive priority/FIFO refinement, end-to-end) and of osmocon's driver glue handle_sercomm_write (repeated calls write exactly the stream sercomm_drv_pull yields, in chunks of at most 256 octets, end reported only "
+             "by the call that drains the queues; every queued message is delivered intact through the glue); tied by Gen constants dumped through the real sercomm.c, the real text of handle_sercomm_write extracted from osmocon.c on "
+             "every run and compiled next to the real sercomm.c, and differential correspondence with the ASan/UBSan host build.",
         note="Delivery is proved for DLCIs not in {0, 0x7D, 0x7E} and for streams without noise directly after a frame longer than the buffer; both exclusions are refuted lemmas and known findings "
-             "(c06-dlci-needs-escape, c06-noise-after-overlong). Target IRQ locking not modelled; literals 0x00 and 1<<5 tied by correspondence only.",
+             "(c06-dlci-needs-escape, c06-noise-after-overlong). Target IRQ locking not modelled; literals 0x00 and 1<<5 tied by correspondence only. osmocon: only handle_sercomm_write (write() always completes in the harness; "
+             "the dnload struct is a stand-in with the members used).",
         technique="Coq inductive proofs (simulation invariant, vm_compute witnesses) + extracted model vs real C under sanitizers on op scripts + delivery oracle", ref="7-C06"),
     "C07": dict(
         text="Theorems for all HSN 0..63, MAIO, N 1..64, FN of the hyperframe: firmware rfch_hop_seq_gen and HoppingParams.resolve both compute the 45.002 6.2.3 MAI (arithmetic reduction by lia + "
@@ -167,13 +171,14 @@ CLAIMED = {
              "scenario (preemption where the code calls out to logging or takes a lock), not part of the Coq model. One defect found by it was repaired in /repo (c49a49d: counter decremented after the log call).",
         technique="Coq proof (induction over the burst stream) + Gen constants + extracted session-model correspondence on the real Application + controlled two-thread schedules with a serialisability oracle", ref="7-C18"),
     "C20": dict(
-        text="46 Coq theorems over all 1024-entry frequency tables, all bitmaps and all uint8 lengths. Decoder: exact 44.018 10.5.2.21 list (ascending ARFCN, 0 last, LSB of last octet first, cut at the first bit beyond the cell "
+        text="52 Coq theorems over all 1024-entry frequency tables, all bitmaps and all uint8 lengths. Decoder: exact 44.018 10.5.2.21 list (ascending ARFCN, 0 last, LSB of last octet first, cut at the first bit beyond the cell "
              "allocation), subset / <= 64 / NoDup, HOPP flags, -EINVAL for len > 8, empty bitmap, memory safety for every length. Through the callers: for EVERY SI4 payload the tail of gsm48_decode_sysinfo4 and the decoder it calls "
              "never read behind the message (caller contract proved, not assumed), a message cut inside the CBCH Mobile Allocation / Channel Description IE gives -EIO with list, hopp_len and flags untouched, an accepted IE stores "
              "exactly the decoder's result on its value octets, before SI1 it is skipped. Through the SI4/SI1 history: the message is stored in si4_msg[23] and re-decoded when SI1 arrives - in bounds for every buffer content and "
              "every message length, and for every SI4 whose IE lies within the first 23 octets 'SI4 then SI1' and 'SI1 then SI4' end in the same state (the specified list); gsm48_rr_render_ma's mobile-allocation branch is in "
              "bounds for every content of mob_alloc_lv[9] and cell_desc_lv[17], incl. its Cell Channel Description sub-branch (length 0: unchanged table; length 16 bit map 0: the list is the specified one on the table whose cell "
-             "allocation is exactly the description's - gsm48_decode_freq_list, vendored gsm48_ie.c linked in, clears the old allocation first; any other length: abnormal cause, nothing touched). Constants (EIO, IE tags, struct sizes, array bounds incl. si4_msg) regenerated from the source as compiled. Differential correspondence with the verbatim real functions "
+             "allocation is exactly the description's - gsm48_decode_freq_list, vendored gsm48_ie.c linked in, clears the old allocation first; any other length: abnormal cause, nothing touched) and its final band-conversion loop (the channel numbers handed to L1 are exactly the decoded list, ARFCN_PCS marks exactly "
+             "512..810 of a PCS cell, FREQ_NOT_IMPL iff some channel's band-index bit in set->freq_map is clear; verbatim gsm_refer_pcs / arfcn2index in the harness). Constants (EIO, IE tags, struct sizes, array bounds incl. si4_msg) regenerated from the source as compiled. Differential correspondence with the verbatim real functions "
              "(decoder, gsm48_decode_sysinfo4 + helpers, gsm48_decode_sysinfo1, gsm48_rr_render_ma) under ASan/UBSan, messages as exact-size heap blocks, the member behind si4_msg poisoned, one forked child per input; "
              "histories of two SI4 and one SI1 in every order. Assignment path (message -> cd_now.mob_alloc_lv): for every message the guards admit the array holds the length octet and exactly the value octets of "
              "the message, refused otherwise, in bounds for every message tail; composed with gsm48_rr_render_ma the list handed to L1 is the specified one for the bitmap in the message (IMMEDIATE ASSIGNMENT, IMMEDIATE "
@@ -182,7 +187,7 @@ CLAIMED = {
              "trx_if_cmd_setfh under ASan and judged by a specification oracle and the Coq model.",
         note="Two refuted strengthenings kept as theorems with witnesses (not reachable with 23-octet BCCH blocks; gsm48_rr.c does not check the length, grr.c does): an SI4 longer than 23 octets whose IE ends behind octet 23 is "
              "order dependent (c20_hist_order_long_refuted), a short SI4 without IE is re-decoded together with old buffer octets (c20_hist_short_stale_refuted). Not modelled: the fixed part of SI4/SI1 (LAI, cell selection, RACH), "
-             "the rest octets (stubbed, call arguments observed), decode_freq_list (the table it leaves is given; stubbed in the harness), the memcmp duplicate filter in gsm48_rr.c; gsm48_rr_render_ma: the frequency-list / frequency-sequence branches and the band conversion are not modelled, gsm48_decode_freq_list is modelled for the bit map 0 "
+             "the rest octets (stubbed, call arguments observed), decode_freq_list (the table it leaves is given; stubbed in the harness), the memcmp duplicate filter in gsm48_rr.c; gsm48_rr_render_ma: the frequency-list / frequency-sequence branches are not modelled, gsm48_decode_freq_list is modelled for the bit map 0 "
              "format only (range / variable-bit-map formats: the set it flags is an explicit argument of the model, taken from the real function in the harness), the update of s->freq is in place (an assignment's Cell Channel "
              "Description replaces the serving cell's allocation - stated, not judged), struct osmocom_ms reduced to the members used; the ASSIGNMENT COMMAND / HANDOVER COMMAND copies (same LV copy behind an unmodelled TLV parser), execution of gsm48_rr_rx_frq_redef (model instance + theorems only), gsm48_rr_dl_est beyond its first call of "
              "gsm48_rr_render_ma (stand-in). Both callers ignore the decoder's return code, and gsm48_decode_sysinfo1 drops the re-decode's "
